@@ -6,7 +6,7 @@ import PdModel.Proto
 * `projectname <E|-> N*`              → `ok <name>`                 (driver.get_system; E = --project-name)
 * `projectnameold <E|-> N*`           → `ok <name>`                 (the same step before /repo f35e237)
 * `pageurl FULL N*`                   → `ok <name>`                 (Documentable.url of a page object)
-* `symlink FILES N*`                  → `none` | `link <name>` | `IndexError`   (writeSummaryPages tail; FILES = `,`-joined
+* `symlink <0|1> FILES N*`            → `none` | `link <name>` | `IndexError`   (writeSummaryPages tail; flag = some root object is visible; FILES = `,`-joined
                                          file names of the run's summary + search pages, or `-`)
 * `indexpage <0|1> N*`                → `yes` | `no`                (summaryPages: IndexPage present; flag = some root object is visible)
 * `unknownroot PFX N*`                → `yes` | `no`                (linker: prefix not in root_names)
@@ -33,7 +33,8 @@ import PdModel.Proto
 * `documents (<fullName>;<v|h>)*`      → `ok <fullName>*`            (search.get_all_documents_flattenable / get_corpus)
 * `templates TPL* | TPL*`               → `ok (<key>=<outName>=<h|s>=<content>)*` sorted by key | `OverrideTemplateNotAllowed`
       TPL = `<name>;<name.lower()>;<h|s>;<content>`; before `|`: the templates already in the lookup (in the order they were
-      added), after: the directory in the order `iterdir()` lists it   (TemplateLookup.add_templatedir)
+      added - itself a directory, walked sorted), after: the directory in the order `iterdir()` lists it (the model sorts it,
+      as Template.fromdir does since /repo ea400d3)   (TemplateLookup.add_templatedir)
 * `exec DIR* | OP*`                   → the same without the `wf=` token (stream of the OS primitives)
 -/
 namespace Determinism
@@ -212,9 +213,9 @@ def handle (args : List String) : String :=
     match decName f, decNames ns with
     | some full, some l => "ok " ++ encName (pageUrl l full)
     | _, _ => "bad-op"
-  | "symlink" :: files :: ns =>
+  | "symlink" :: vis :: files :: ns =>
     match decNameList files, decNames ns with
-    | some fs, some l => (match rootSymlink l fs with
+    | some fs, some l => (match rootSymlink l (vis == "1") fs with
       | .noLink => "none" | .link n => "link " ++ encName n | .indexError => "IndexError")
     | _, _ => "bad-op"
   | "indexpage" :: vis :: ns =>
@@ -290,7 +291,7 @@ def handle (args : List String) : String :=
     let dirToks := (rest.dropWhile (· ≠ "|")).drop 1
     match baseToks.mapM decTpl, dirToks.mapM decTpl with
     | some b, some l =>
-      (match (addTemplateDir [] b).bind (fun d => addTemplateDir d l) with
+      (match (addTemplateDirSorted [] b).bind (fun d => addTemplateDirSorted d l) with
        | some d => showLookup d
        | none => "OverrideTemplateNotAllowed")
     | _, _ => "bad-op"
